@@ -3192,9 +3192,15 @@ fn gen_c11(rng: &mut Rng, ops: &mut Vec<String>, stats: &mut Stats) {
 
 fn gen_c14(rng: &mut Rng, ops: &mut Vec<String>, stats: &mut Stats) {
     let mode = *rng.pick(&["ip4", "ip4", "ip6", "dual"]);
-    let lshape = match mode {
-        "ip4" => "4",
-        "ip6" => "6",
+    // (one node in four has a record nobody can dial it by: no socket at all - none voted in yet, or taken out
+    // again -, or one of the family it does not listen on; it is its record all the same)
+    let lshape = match (mode, rng.below(8)) {
+        (_, 0) => "n",
+        ("ip4", 1) => "6",
+        ("ip6", 1) => "4",
+        ("ip4", _) => "4",
+        ("ip6", _) => "6",
+        ("dual", 1) => "4",
         _ => "46",
     };
     let a = rng.range(1, 40);
